@@ -7,17 +7,22 @@ package dtls
 import (
 	"fmt"
 	"sync"
+	"sync/atomic"
 	"testing/synctest"
 	"time"
 
 	"verif/sim"
+	"verif/sim/hook"
 )
 
 func c16ScenarioFlow(r *sim.Run) {
-	if r.Tape.Choose("sub", 2) == 0 {
+	switch r.Tape.Choose("sub", 3) {
+	case 0:
 		c16ScenarioWrite(r)
-	} else {
+	case 1:
 		c16ScenarioWatchdog(r)
+	default:
+		c16ScenarioWriters(r)
 	}
 }
 
@@ -502,4 +507,184 @@ func c16ScenarioWatchdog(r *sim.Run) {
 		return
 	}
 	<-rdDone
+}
+
+
+// ---------------------------------------------------------------------------
+// several writers on one connection
+
+// c16ScenarioWriters: 2-6 application goroutines write to ONE SCTPConn (net.Conn permits concurrent
+// Write calls; the station's relay and a keep-alive may share a connection). The writers are tasks
+// of the cooperative scheduler, so every interleaving of their lock operations is a tape decision;
+// the network (a task of its own) drains the scripted stream at pre-drawn instants. The property is
+// the same as for one writer: the data buffered in the stream stays bounded (limit + 2 x the
+// largest accepted write, whatever the number of writers), and every writer finishes once the
+// network drains.
+func c16ScenarioWriters(r *sim.Run) {
+	tp := r.Tape
+	stack := tp.Choose("stack", 2)
+	nwr := 2 + tp.Choose("writers", 5)
+	plans := make([][]int, nwr)
+	total := 0
+	for i := range plans {
+		plans[i] = make([]int, 1+tp.Choose("writes-each", 5))
+		for k := range plans[i] {
+			j := tp.Choose("wsize", len(c16WriteSizes)+6)
+			if j >= len(c16WriteSizes) {
+				j = 3 + j%3 // biased to large writes: the writers must outpace the network
+			}
+			plans[i][k] = c16WriteSizes[j]
+			total++
+		}
+	}
+	type drain struct {
+		d  uint64
+		dt time.Duration
+	}
+	net := make([]drain, 8+tp.Choose("drains", 40))
+	for i := range net {
+		net[i].d = c16Drains[tp.Choose("drain", len(c16Drains))]
+		net[i].dt = []time.Duration{time.Millisecond, 10 * time.Millisecond, 300 * time.Millisecond}[tp.Choose("dt", 3)]
+	}
+	prefill := []uint64{0, 0, 100 << 10, 128 << 10, 200 << 10}[tp.Choose("prefill", 5)]
+	r.Probe("mode/flow-writers")
+	r.Logf("C16(d/writers) stack=%s writers=%d plans=%v prefill=%d drains=%d", []string{"server(hbConn)", "client(hbClient)"}[stack], nwr, plans, prefill, len(net))
+
+	hbp := defaultConfig.Heartbeat
+	st := newC16Stream(r, "s", hbp)
+	var mid msgStream
+	if stack == 0 {
+		h, err := heartbeatServer(st, &heartbeatConfig{Interval: 1000 * time.Hour}, 65536)
+		if err != nil {
+			r.Fail("harness/c16-hbserver", "%v", err)
+			return
+		}
+		mid = h
+	} else {
+		m, err := heartbeatClient(st, &heartbeatConfig{Interval: 1000 * time.Hour})
+		if err != nil {
+			r.Fail("harness/c16-hbclient", "%v", err)
+			return
+		}
+		mid = m
+	}
+	conn := newSCTPConn(mid, &c16Dummy{}, 65536)
+	synctest.Wait() // the heartbeat goroutines reach their first blocking point
+	defer func() {
+		conn.Close()
+		synctest.Wait()
+	}()
+	if prefill > 0 {
+		// data an earlier burst left in the stream
+		st.mu.Lock()
+		st.buffered = prefill
+		st.mu.Unlock()
+	}
+
+	s := hook.Install(tp)
+	defer s.Uninstall()
+	s.LockYield = true
+	s.UnlockYield = true
+	if tp.Bool("staybias") {
+		s.StayNum, s.StayDen = 2, 3
+	}
+
+	var mu sync.Mutex
+	var largest uint64
+	var wErr error
+	var wErrBy string
+	inWrite := make([]int, nwr) // size of the write the writer is in, -1 = idle, -2 = finished
+	var left atomic.Int32
+	left.Store(int32(nwr))
+	var stop atomic.Bool
+	for i := range plans {
+		i := i
+		inWrite[i] = -1
+		s.Spawn(fmt.Sprintf("writer%d", i), func() {
+			defer left.Add(-1)
+			for k, n := range plans[i] {
+				mu.Lock()
+				inWrite[i] = n
+				mu.Unlock()
+				got, err := conn.Write(make([]byte, n))
+				mu.Lock()
+				inWrite[i] = -1
+				if err == nil && uint64(got) > largest {
+					largest = uint64(got)
+				}
+				if err != nil && n > 0 && n <= 128<<10 && wErr == nil {
+					wErr, wErrBy = err, fmt.Sprintf("writer%d write #%d of %d bytes", i, k, n)
+				}
+				mu.Unlock()
+			}
+			mu.Lock()
+			inWrite[i] = -2
+			mu.Unlock()
+		})
+	}
+	s.Spawn("network", func() {
+		// no tape draws and no log lines here: a writer released by a drain runs beside this loop
+		for k := 0; !stop.Load() && left.Load() > 0; k++ {
+			d, dt := uint64(1<<30), time.Second // liveness phase: everything drains, one second apart
+			if k < len(net) {
+				d, dt = net[k].d, net[k].dt
+			}
+			time.Sleep(dt)
+			if d > 0 {
+				st.Drain(d)
+			}
+		}
+	})
+	bound := func() uint64 {
+		mu.Lock()
+		defer mu.Unlock()
+		return writeMaxBufferedAmount + 2*largest
+	}
+	over := false
+	each := func() {
+		st.mu.Lock()
+		mb, b := st.maxBuffered, st.buffered
+		st.mu.Unlock()
+		if mb > writeMaxBufferedAmount && !over {
+			over = true
+			r.Probe("flow/writers/overshoot-above-limit")
+		}
+		if bd := bound(); mb > bd {
+			r.Fail("C16/flow/buffer-unbounded/several-writers", "%d bytes buffered in the stream (now %d) with %d writers on one connection; flow-control limit %d, largest accepted write %d, bound %d",
+				mb, b, nwr, writeMaxBufferedAmount, (bd-writeMaxBufferedAmount)/2, bd)
+		}
+	}
+	dst := sim.Drive(r, s, sim.DriveOpt{Horizon: 10 * time.Minute, MaxSteps: 6000, Each: each, Until: func() bool { return left.Load() == 0 }})
+	stop.Store(true)
+	defer s.Finish()
+	r.CoverU(s.SigHash)
+	mu.Lock()
+	states := append([]int(nil), inWrite...)
+	werr, by := wErr, wErrBy
+	mu.Unlock()
+	st.mu.Lock()
+	mb, acc := st.maxBuffered, st.accepted
+	st.mu.Unlock()
+	r.Logf("drive ended %v: writer states %v, accepted %d bytes, max buffered %d", dst, states, acc, mb)
+	r.Cover("flow-writers", fmt.Sprint(stack, nwr, total, prefill, over, dst))
+	switch dst {
+	case sim.Failed:
+		return
+	case sim.Done, sim.AllExited:
+	case sim.Deadlock:
+		r.Fail("C16/flow/writers-deadlock", "the writers block each other for ever: %s", s.WaitForGraph())
+		return
+	case sim.Horizon:
+		r.Fail("C16/flow/writer-starved/several-writers", "after 10 simulated minutes (the network draining everything once a second) not every writer has finished: states %v (-2 = finished, otherwise the size of the write it is in)", states)
+		return
+	default:
+		r.Fail("harness/c16-writers-drive", "drive ended with %v: %v", dst, s.LiveNames())
+		return
+	}
+	r.Nontrivial()
+	if werr != nil {
+		r.Fail("C16/flow/write-error/several-writers", "%s failed on an open connection: %v", by, werr)
+		return
+	}
+	each()
 }
